@@ -13,7 +13,7 @@ import (
 func init() {
 	register(&propDef{
 		id: "C06", level: "other", perCfg: false,
-		explain: "Necessary structural conditions of C06 - each is one of the mechanisms the statement lists - decided for all paths of package idl by the cursor analysis (E9) and edge-fact rules; roles (layout skipper, token readers, type readers, member loop, entry point) are found by shape. Q1 no blind consume: every byte consumed by the read primitive is inspected, or the byte at the cursor is known from a preceding read+step-back. Q1c comments consume only themselves: between the comment introducer and the end of the comment no read consumes a line terminator except the final one; the comment body stops exactly at newline/end of input. Q2 failure sentinels are propagated: after a reader that can fail, its result is tested before the cursor is used again (or the cursor is proved unchanged since a snapshot). Q3 success only at end of input: the member loop's only success return is on the edge `skipper reported end of input` (whose value is position < len(input)), and every way around the loop crosses a keyword-equality edge, the no-match edge returning an error. Q4 one namespace, checked before insert: every member kind inserts its name into the same map, on the lookup-failed edge, in the block that appends the member. Q5 the entry point's success return carries len(Methods) != 0. Q6 an optional node is built only with element.Kind != optional. Q7 map only for key keyword \"string\", array only for the empty keyword, closing bracket required. Q8 struct/enum homogeneity: a typed field is appended only with Kind != enum; a bare name only when no field was appended yet or Kind == enum, and then Kind becomes enum. Q9 punctuation: the method reader succeeds only after '-' '>' ; the struct reader only after '(' ... ')' and continues only on ','. Q10 interface-name patterns are constant, ^-anchored and the cursor advances by the match length. Q9 also: after a ',' the field list ends only after another field name was read (no dangling comma). Q12 (= C05.K1) every built-in type node is built under the fact `keyword == its name`.",
+		explain: "Necessary structural conditions of C06 - each is one of the mechanisms the statement lists - decided for all paths of package idl by the cursor analysis (E9) and edge-fact rules; roles (layout skipper, token readers, type readers, member loop, entry point) are found by shape. Q1 no blind consume: every byte consumed by the read primitive is inspected, or the byte at the cursor is known from a preceding read+step-back. Q1c comments consume only themselves: between the comment introducer and the end of the comment no read consumes a line terminator except the final one; the comment body stops exactly at newline/end of input. Q2 failure sentinels are propagated: after a reader that can fail, its result is tested before the cursor is used again (or the cursor is proved unchanged since a snapshot). Q3 success only at end of input: the member loop's only success return is on the edge `skipper reported end of input` (whose value is position < len(input)), and every way around the loop crosses a keyword-equality edge, the no-match edge returning an error. Q4 one namespace, checked before insert: every member kind inserts its name into the same map, on the lookup-failed edge, in the block that appends the member. Q5 the entry point's success return carries len(Methods) != 0. Q6 an optional node is built only with element.Kind != optional. Q7 map only for key keyword \"string\", array only for the empty keyword, closing bracket required. Q8 struct/enum homogeneity: a typed field is appended only with Kind != enum; a bare name only when no field was appended yet or Kind == enum, and then Kind becomes enum. Q9 punctuation: the method reader succeeds only after '-' '>' ; the struct reader only after '(' ... ')' and continues only on ','. Q10 interface-name patterns are constant, ^-anchored and the cursor advances by the match length. Q9 also: after a ',' the field list ends only after another field name was read (no dangling comma). Q12 (= C05.K1) every built-in type node is built under the fact `keyword == its name`. Q13 (= C05.K5) the layout skipper passes over exactly space, tab, CR, LF and comments: no other byte is silently ignored.",
 		notDec:  "The re-print/round-trip equality as such (it is the conjunction of the mechanisms above plus the token charsets); name-shape rules the statement does not list.",
 		trusted: []string{"regexp with a ^-anchored pattern matches a prefix of its argument"},
 		run:     runC06,
@@ -308,6 +308,78 @@ func runC06(r *Run, p *Prog) {
 					if len(tn.Elem) == 1 {
 						et := T.T(tn.Elem[0])
 						ok = hasFact(ka.Facts, "NE", et+".Kind", fmt.Sprintf("const:%d", m.kinds["TypeMaybe"])) && hasFact(ka.Facts, "NE", et, "nil")
+						// ... or the byte at which the element reader starts was seen not to be '?' (a type reader
+						// builds an optional only behind '?': C05.K1): the reader call is the first call of the block
+						// entered on the `input[position] != '?'` edge
+						if !ok && hasFact(ka.Facts, "NE", et, "nil") {
+							if ec, isCall := tn.Elem[0].(*ssa.Call); isCall && ec.Call.StaticCallee() != nil && m.typeReaders[origFn(ec.Call.StaticCallee())] {
+								eb := ec.Block()
+								first := true
+								for _, in := range eb.Instrs {
+									if in == ssa.Instruction(ec) {
+										break
+									}
+									if _, isC := in.(ssa.CallInstruction); isC {
+										first = false
+									}
+									if _, isS := in.(*ssa.Store); isS {
+										first = false
+									}
+								}
+								if first && len(eb.Preds) >= 1 {
+									// every way into the block: `input[position] != '?'`, or the cursor is at the end of the input
+									all := true
+									for _, pb := range eb.Preds {
+										edgeOK := false
+										iff, isIf := pb.Instrs[len(pb.Instrs)-1].(*ssa.If)
+										bo, isBo := ssa.Value(nil), false
+										var cond *ssa.BinOp
+										if isIf {
+											cond, isBo = iff.Cond.(*ssa.BinOp)
+										}
+										_ = bo
+										if isIf && isBo {
+											onFalse := len(pb.Succs) == 2 && pb.Succs[1] == eb && pb.Succs[0] != eb
+											onTrue := len(pb.Succs) == 2 && pb.Succs[0] == eb && pb.Succs[1] != eb
+											isPos := func(v ssa.Value) bool {
+												li, ok := v.(*ssa.UnOp)
+												return ok && li.Op == token.MUL && isRecvField(li.X, nil, m.a.posIdx, m.a.cursorT)
+											}
+											isIn := func(v ssa.Value) bool {
+												ld, ok := v.(*ssa.UnOp)
+												return ok && ld.Op == token.MUL && isRecvField(ld.X, nil, m.a.inIdx, m.a.cursorT)
+											}
+											// nothing moves the cursor in pb after the position was read
+											clean := true
+											for _, in := range pb.Instrs {
+												if _, isC := in.(ssa.CallInstruction); isC {
+													if c, ok := in.(*ssa.Call); !ok || func() bool { _, isB := c.Call.Value.(*ssa.Builtin); return !isB }() {
+														clean = false
+													}
+												}
+												if _, isS := in.(*ssa.Store); isS {
+													clean = false
+												}
+											}
+											if ix, isIx := cond.X.(*ssa.Index); isIx && clean {
+												if k, isK := cond.Y.(*ssa.Const); isK && k.Value != nil && k.Int64() == '?' && isIn(ix.X) && isPos(ix.Index) {
+													edgeOK = cond.Op == token.EQL && onFalse || cond.Op == token.NEQ && onTrue
+												}
+											}
+											if lc, isCall := cond.Y.(*ssa.Call); isCall && clean && isPos(cond.X) && len(lc.Call.Args) == 1 && isIn(lc.Call.Args[0]) {
+												if bi, isB := lc.Call.Value.(*ssa.Builtin); isB && bi.Name() == "len" {
+													edgeOK = cond.Op == token.LSS && onFalse || cond.Op == token.GEQ && onTrue
+												}
+											}
+										}
+										if !edgeOK {
+											all = false
+										}
+									}
+									ok = all
+								}
+							}
+						}
 					}
 					r.Ob("Q6", shortName(tn.Fn), "an optional is built only around a non-nil element that is not itself an optional", tn.Alloc.Pos(), ok, "`??T` would be accepted (or a failed element read wrapped)")
 				case "TypeMap", "TypeArray":
